@@ -1721,7 +1721,10 @@ class CausalGraph(HasIdentifier, HasMetadata, CanDictSerialize, CanDictDeseriali
             else descendant_node
         )
 
-        return descendant_node_set.issubset(self.get_descendants(ancestor_node))
+        # coerce node-like objects to identifiers (a Node never compares equal to its identifier string)
+        descendant_ids = {self._NodeCls.identifier_from(node) for node in descendant_node_set}
+
+        return descendant_ids.issubset(self.get_descendants(ancestor_node))
 
     def is_descendant(
         self, descendant_node: NodeLike, ancestor_node: Union[NodeLike, Set[NodeLike], List[NodeLike]]
@@ -1745,7 +1748,10 @@ class CausalGraph(HasIdentifier, HasMetadata, CanDictSerialize, CanDictDeseriali
             else ancestor_node
         )
 
-        return ancestor_node_set.issubset(self.get_ancestors(descendant_node))
+        # coerce node-like objects to identifiers (a Node never compares equal to its identifier string)
+        ancestor_ids = {self._NodeCls.identifier_from(node) for node in ancestor_node_set}
+
+        return ancestor_ids.issubset(self.get_ancestors(descendant_node))
 
     def get_common_ancestors(self, node_1: NodeLike, node_2: NodeLike) -> Set[str]:
         """
